@@ -255,6 +255,11 @@ def run_case(idx, rng, P, rep):
             obj.param.t.doc = 'doc%d' % int(tokv())        # (the object now has a Parameter object of its own for t)
             flags['meta'] = True
             return 'meta-t-doc'
+        if c < 0.98:
+            # (the object now has a Selector of its own whose named objects are floats and a large int)
+            obj.param.fsel.objects['e%d' % int(tokv())] = tokv() + 0.25
+            flags['meta'] = True
+            return 'meta-fsel-named-object'
         obj.extra['list'].append(tokv())
         flags['mut'] = True
         return 'mutate-extra'
@@ -354,6 +359,13 @@ def run_case(idx, rng, P, rep):
     for p, a in META:
         if a == 'objects' and o.param[p]._objects is c.param[p]._objects:
             viol('shares-mutable-state/parameter-attribute', f'{mech}: {p}.{a} list is shared')
+    # ---- a Selector's range names the objects as declared, on the original and on the copy
+    for side, obj in (('orig', o), ('copy', c)):
+        pf = obj.param.fsel
+        rep.count('selector_range_checks_after_copy')
+        if list(pf.get_range().items()) != list(pf.names.items()) or list(pf.names.values()) != list(pf.objects):
+            viol(f'selector-inconsistent-on-{side}/fsel', f'{mech}: right after the copy was made, fsel on the {side}: objects {list(pf.objects)!r}, '
+                 f'names {dict(pf.names)!r}, range {dict(pf.get_range())!r}')
     # ---- diverging histories
     div = []
     for _ in range(rng.randint(3, P['maxlen'] + 3)):
@@ -387,7 +399,7 @@ def run_case(idx, rng, P, rep):
             else:
                 fo.remove(list(fo)[-1])
             pf = obj.param.fsel
-            if list(pf.names.values()) != list(pf.objects) or list(pf.get_range().values()) != list(pf.objects):
+            if list(pf.names.values()) != list(pf.objects) or list(pf.get_range().items()) != list(pf.names.items()):
                 viol(f'selector-inconsistent-on-{side}/fsel', f'{mech}: after removing an object from fsel on the {side}: objects {list(pf.objects)!r}, '
                      f'names {dict(pf.names)!r}, range {dict(pf.get_range())!r}')
             rep.count('named_objects_removed_after_copy')
